@@ -1,0 +1,7 @@
+//go:build !verif
+
+package route
+
+// simNoListen is true only in simulation builds (-tags verif), where the
+// routers' handlers are invoked in-process and no listener is started.
+const simNoListen = false
